@@ -246,6 +246,51 @@ def scaleshift_case(rnd, with_q=True):
   return ev
 
 
+def string_case(cls):
+  """A layer built from quantizer STRINGS (the form used in model files and conversion dictionaries): what
+  get_quantizers() reports has to be the very quantizer objects the layer applies, in weight order."""
+  import qkeras as qk
+  s1, s2, s3 = "quantized_bits(4,0,1)", "quantized_bits(5,1,1)", "quantized_bits(6,2,1)"
+  specs = {
+      "QDense": (lambda: qk.QDense(2, kernel_quantizer=s1, bias_quantizer=s2), (None, 3), ["kernel_quantizer_internal", "bias_quantizer_internal"]),
+      "QConv1D": (lambda: qk.QConv1D(2, 2, kernel_quantizer=s1, bias_quantizer=s2), (None, 4, 2), ["kernel_quantizer_internal", "bias_quantizer_internal"]),
+      "QConv2D": (lambda: qk.QConv2D(2, (2, 2), kernel_quantizer=s1, bias_quantizer=s2), (None, 3, 3, 2), ["kernel_quantizer_internal", "bias_quantizer_internal"]),
+      "QDepthwiseConv2D": (lambda: qk.QDepthwiseConv2D((2, 2), depthwise_quantizer=s1, bias_quantizer=s2), (None, 3, 3, 2),
+                           ["depthwise_quantizer_internal", "bias_quantizer_internal"]),
+      "QSeparableConv2D": (lambda: qk.QSeparableConv2D(2, (2, 2), depthwise_quantizer=s1, pointwise_quantizer=s3, bias_quantizer=s2), (None, 3, 3, 2),
+                           ["depthwise_quantizer_internal", "pointwise_quantizer_internal", "bias_quantizer_internal"]),
+      "QSeparableConv1D": (lambda: qk.QSeparableConv1D(2, 2, depthwise_quantizer=s1, pointwise_quantizer=s3, bias_quantizer=s2), (None, 4, 2),
+                           ["depthwise_quantizer_internal", "pointwise_quantizer_internal", "bias_quantizer_internal"]),
+      "QScaleShift": (lambda: qk.QScaleShift(weight_quantizer=s1, bias_quantizer=s2), (None, 3),
+                      ["weight_quantizer_internal", "bias_quantizer_internal"]),
+      "QAveragePooling2D": (lambda: qk.QAveragePooling2D((2, 2), average_quantizer=s1), (None, 4, 4, 1), ["average_quantizer_internal"]),
+      "QGlobalAveragePooling2D": (lambda: qk.QGlobalAveragePooling2D(average_quantizer=s1), (None, 4, 4, 1), ["average_quantizer_internal"]),
+      "QSimpleRNN": (lambda: qk.QSimpleRNN(2, kernel_quantizer=s1, recurrent_quantizer=s3, bias_quantizer=s2), (None, 3, 2),
+                     ["kernel_quantizer_internal", "recurrent_quantizer_internal", "bias_quantizer_internal"]),
+      "QLSTM": (lambda: qk.QLSTM(2, kernel_quantizer=s1, recurrent_quantizer=s3, bias_quantizer=s2), (None, 3, 2),
+                ["kernel_quantizer_internal", "recurrent_quantizer_internal", "bias_quantizer_internal"]),
+      "QGRU": (lambda: qk.QGRU(2, kernel_quantizer=s1, recurrent_quantizer=s3, bias_quantizer=s2, reset_after=False), (None, 3, 2),
+               ["kernel_quantizer_internal", "recurrent_quantizer_internal", "bias_quantizer_internal"]),
+  }
+  mk, shape, attrs = specs[cls]
+  ok = 1
+  for rebuilt in (False, True):
+    lay = mk()
+    if rebuilt:                                   # the same layer rebuilt from its own configuration
+      lay = lay.__class__.from_config(lay.get_config())
+    lay.build(shape)
+    lay(tf.zeros((1,) + tuple(shape[1:])))
+    reported = [q for q in lay.get_quantizers() if q is not None]
+    applied = [getattr(lay, a) for a in attrs]
+    if len(reported) < len(applied) or any(r is not a for r, a in zip(reported, applied)) or not all(callable(r) for r in reported):
+      ok = 0
+  return {"kind": "strq", "cls": cls, "applied_ok": ok, "stock": 1}
+
+
+STRING_CLASSES = ["QDense", "QConv1D", "QConv2D", "QDepthwiseConv2D", "QSeparableConv2D", "QSeparableConv1D", "QScaleShift",
+                  "QAveragePooling2D", "QGlobalAveragePooling2D", "QSimpleRNN", "QLSTM", "QGRU"]
+
+
 def pool_case(rnd, cls):
   log = []
   h, w, c = rnd.choice([4, 6]), rnd.choice([4, 6]), rnd.choice([1, 2])
@@ -353,6 +398,7 @@ def main():
   plan += [("pool", "QAveragePooling2D", True)] * n + [("pool", "QGlobalAveragePooling2D", True)] * max(3, n // 3)
   plan += [("rnn", c, True) for c in ("QSimpleRNN", "QLSTM", "QGRU")] * max(4, n // 3)
   plan += [("scaleshift", "QScaleShift", True)] * max(3, n // 3) + [("scaleshift", "QScaleShift", False)]
+  plan += [("strq", c, True) for j, c in enumerate(STRING_CLASSES) if j % nshards == shard % len(STRING_CLASSES) or nshards == 1]
   for kind, cls, wq in plan:
     try:
       if kind == "conv":
@@ -363,6 +409,8 @@ def main():
         ev = pool_case(rnd, cls)
       elif kind == "scaleshift":
         ev = scaleshift_case(rnd, wq)
+      elif kind == "strq":
+        ev = string_case(cls)
       else:
         ev = rnn_case(rnd, cls)
       for k, v in (("x", [0]), ("qk", [0]), ("qk2", [0]), ("qb", [0]), ("pre", [0]), ("reported", []), ("applied", []),
